@@ -58,9 +58,11 @@ def run_case(ctx, h, tmp):
     before = observable(m)
     ok = True
     try:
-        res.save(options=dict(opts))
+        # "twice in a row" is the same call twice: every other case hands the very same options object to both
+        shared = dict(opts)
+        res.save(options=shared if h % 4 < 2 else dict(opts))
         b1 = open(path, 'rb').read()
-        res.save(options=dict(opts))
+        res.save(options=shared if h % 4 < 2 else dict(opts))
         b2 = open(path, 'rb').read()
     except Exception as e:
         ok = False      # whether this model can be written in this format is C08/C09's business
